@@ -59,6 +59,17 @@ CLAIMED = {
             '(fuel in the model; arithmetic core only) and is watched by a watchdog. Tie: bit-exact correspondence on limit configurations.',
             'hand Lean model + induction over iterations, bit-exact differential run, truthfulness/prefix oracle + watchdog on the real code',
             '5 C04'),
+    'C05': ('Theorems over the row model: every column is the documented function (Mach, kinetic energy constant within 1e-4, OGW, sight-line '
+            'geometry as signed distance, adjustments incl. zero at the muzzle, angle = direction of velocity, Litz spin drift with Miller '
+            'stability). Tie: bit-exact correspondence of every field on random states fed straight into create_trajectory_row.',
+            'hand Lean model + algebra over R, bit-exact differential run, independent-formula oracle on real rows',
+            '5 C05'),
+    'C08': ('Theorems over the atmosphere model with regenerated constants: ISA temperature exact, pressure within 1e-4 over the troposphere '
+            '(rpow/exp/log bounds), speed-of-sound constant within 1e-4, dry density within 5e-5 (compressibility bounded over the box), '
+            'extrapolation law = barometric composition identity, shortcut, clamped pressure base, vacuum zero, humidity normalisation. '
+            'Monotonicity with Z,f live: search only. Tie: bit-exact correspondence of constructor and altitude look-ups.',
+            'hand Lean model + real-analysis bounds, regenerated constants, bit-exact differential run, ISA/grid oracle',
+            '5 C08'),
 }
 NOT_APPLICABLE = {}
 TODO_REASON = 'check not built yet in this round (planned, see DESIGN.md section 5)'
